@@ -58,6 +58,14 @@ NOTES = {
     'C17-B8-negative-cache-of-types-without-predicate': 'first caught by C15 (print, register a predicate, print); C17 itself MISSED it as built then (extras always installed before the first print); caught by C17 after adding classes first printed before install_extras() (forked child)',
     'C14-A8-every-typeerror-treated-as-missing-parameter': 'MISSED by C14 as built then (the "does not support rendering trailing comments" warning was filtered everywhere because PNode printers legitimately cause it); caught after judging that warning wherever no such printer sits under a trailing comment',
     'C13-B8-deferred-supertype-printer-registered-unwrapped': 'MISSED by C13 as built then (no node printed through a by-name printer of its BASE class); caught after adding such a subclass as node kind',
+    'C10-A9-dropped-count-with-thousands-separator': 'MISSED by C10 as built then (at most 500 elements were ever dropped); caught after adding containers of 3500 and 12345 elements, i.e. dropped counts of four and five digits',
+    'C20-B9-predicate-lock-order-inversion': 'MISSED by C20 as built then (no value whose repr re-enters the package); caught after adding scenario S18 (the scheduler turns every module-level lock into a cooperative one and reports the cycle as a deadlock)',
+    'C17-A9-argument-doc-memo-keyed-by-equality': 'MISSED by C17 as built then (arguments of one call were never equal-but-distinct across int/float/bool); caught after adding confusable argument groups',
+    'C15-B9-reinstall-moves-dataclass-predicate-to-the-end': 'MISSED by C15 as built then (install_extras was not an operation of its histories); caught after adding all histories up to length 4 over {install_extras, register a competing predicate, print}',
+    'C19-B9-thread-local-guard-not-reset-after-exception': 'first caught by C13 and C14 (aborted-print probes); C19 itself MISSED it as built then (no print in its histories ever raised); caught by C19 after adding an armable aborting printer',
+    'C14-A9-traceback-used-as-format-string': 'MISSED by C14 as built then (exception messages without { } %); caught after putting format characters into every injected message',
+    'C18-B9-is-registered-walks-mro-instead-of-dispatch': 'MISSED by C18 (and C15) as built then (no printer registered for an ABC with virtual subclasses); caught after adding ABC.register / __subclasshook__ classes whose __repr__ is pretty_repr',
+    'C05-B9-contextual-str-result-skips-column-update': 'MISSED by C04-C06 as built then (contextual() occurred only through align / hang); caught after adding lazily produced text and documents (a "lazy" term kind) to the generators and the reference semantics',
 }
 for name, note in NOTES.items():
     p = os.path.join(HOME, 'seeded', name, 'meta.json')
@@ -76,6 +84,9 @@ for p in glob.glob(os.path.join(HOME, 'seeded', '*', 'meta.json')):
     if rnd in ('2', '3'):
         m['origin'] = ('round %s: independent sub-agent in its own scratch worktree, given the property text plus a PROSE description of the kind of generated workload '
                        'it had to slip past (no file from /verif) - a deliberately stronger adversary than "property text only"' % rnd)
+    elif rnd == '9':
+        m['origin'] = ('round 9: as rounds 6-8 - independent sub-agent in its own scratch worktree, four property texts (pick two), rarity shown by its own random '
+                       'differential test, one-line summaries of all ideas delivered so far ("do not repeat"), nothing about the checks')
     elif rnd == '8':
         m['origin'] = ('round 8: as rounds 6-7 - independent sub-agent in its own scratch worktree, four property texts (pick two), rarity shown by its own random '
                        'differential test, one-line summaries of all ideas delivered so far ("do not repeat"), nothing about the checks')
